@@ -1,9 +1,110 @@
 import Driver.Proto
+import PolyVerif.Gen.Sdf
+import PolyVerif.Model.SdfOps
 
 namespace Driver.C19
+open PolyVerif PolyVerif.Gen
 
-/-- one request -> one answer line; `none` = unknown op / malformed -/
-def handle (_op : String) (_args : List String) : Option String := none
+abbrev V := V3 Float
+
+def v3 (fs : List Float) (i : Nat) : V := ⟨fs.getD i 0, fs.getD (i+1) 0, fs.getD (i+2) 0⟩
+
+def dist (a b : V) : Float := a.Distance b
+
+/-- independent reference: distance from p to segment [a,b] -/
+def segDist (a b p : V) : Float :=
+  let d := b.Sub a
+  let n := d.Dot d
+  let t := if n == 0 then 0 else min 1 (max 0 ((p.Sub a).Dot d / n))
+  dist p (a.Add (d.Scale t))
+
+/-- independent reference: signed distance to an axis-aligned box (centre c, half extents h) -/
+def boxRef (c h p : V) : Float :=
+  let qx := (p.x - c.x).abs - h.x; let qy := (p.y - c.y).abs - h.y; let qz := (p.z - c.z).abs - h.z
+  if qx ≤ 0 && qy ≤ 0 && qz ≤ 0 then max qx (max qy qz)
+  else Float.sqrt ((max qx 0)^2 + (max qy 0)^2 + (max qz 0)^2)
+
+/-- independent reference: min over the axis of (distance to centre − interpolated radius); sign-correct for the round cone -/
+def coneRef (a b : V) (r1 r2 : Float) (p : V) : Float :=
+  let n := 4000
+  (List.range (n+1)).foldl (fun m i =>
+    let t := i.toFloat / n.toFloat
+    let c := a.Add ((b.Sub a).Scale t)
+    min m (dist p c - (r1 + t * (r2 - r1)))) (dist p a - r1)
+
+def spheres (fs : List Float) (k : Nat) : List (V → Float) :=
+  (List.range k).map fun i => sdf.Sphere (v3 fs (4*i)) (fs.getD (4*i+3) 0)
+
+def handle (op : String) (args : List String) : Option String := do
+  match op with
+  | "c19.union" | "c19.intersect" => do
+      let k ← nat? (← args.head?)
+      let fs ← floats? args.tail
+      let fl := spheres fs k
+      let p := v3 fs (4*k)
+      let r := if op == "c19.union" then SdfOps.Union fl else SdfOps.Intersect fl
+      match r with
+      | some f => pure (fHex (f p))
+      | none => pure "panic"
+  | _ =>
+  let fs ← floats? args
+  match op with
+  | "c19.sphere" => pure (fHex (sdf.Sphere (v3 fs 0) (fs.getD 3 0) (v3 fs 4)))
+  | "c19.box" => pure (fHex (sdf.Box (v3 fs 0) (v3 fs 3) (v3 fs 6)))
+  | "c19.rbox" => pure (fHex (sdf.RoundedBox (v3 fs 0) (v3 fs 3) (fs.getD 6 0) (v3 fs 7)))
+  | "c19.line" => pure (fHex (sdf.Line (v3 fs 0) (v3 fs 3) (fs.getD 6 0) (v3 fs 7)))
+  | "c19.plane" => pure (fHex (sdf.Plane (v3 fs 0) (v3 fs 3) (fs.getD 6 0) (v3 fs 7)))
+  | "c19.rcone" => pure (fHex (sdf.RoundedCone (v3 fs 0) (v3 fs 3) (fs.getD 6 0) (fs.getD 7 0) (v3 fs 8)))
+  | "c19.rcyl" => pure (fHex (sdf.RoundedCylinder (v3 fs 0) (fs.getD 3 0) (fs.getD 4 0) (fs.getD 5 0) (v3 fs 6)))
+  | "c19.subtract" =>   -- sphere − sphere
+      pure (fHex (sdf.Subtract (sdf.Sphere (v3 fs 0) (fs.getD 3 0)) (sdf.Sphere (v3 fs 4) (fs.getD 7 0)) (v3 fs 8)))
+  | "c19.translate" =>  -- translated box
+      pure (fHex (sdf.Translate (sdf.Box (v3 fs 0) (v3 fs 3)) (v3 fs 6) (v3 fs 9)))
+  -- oracles on implementation output -------------------------------------------------------
+  | "c19.holds.lipschitz" =>      -- args: f(p) f(q) p q
+      let fp := fs.getD 0 0; let fq := fs.getD 1 0
+      let d := dist (v3 fs 2) (v3 fs 5)
+      pure (boolStr ((fp - fq).abs ≤ d * (1 + 1e-9) + 1e-9 * (max 1 (max fp.abs fq.abs))))
+  | "c19.holds.sign_exact" =>     -- args: impl value, reference signed distance (computed below per shape)
+      none
+  | "c19.holds.sphere" =>         -- c r p f : sign and exact distance
+      let ref := dist (v3 fs 4) (v3 fs 0) - fs.getD 3 0
+      pure (boolStr (close 1e-9 ref (fs.getD 7 0)))
+  | "c19.holds.box" =>            -- c bounds p f : exact signed distance to the box surface
+      let b := v3 fs 3
+      let ref := boxRef (v3 fs 0) ⟨b.x/2, b.y/2, b.z/2⟩ (v3 fs 6)
+      pure (boolStr (close 1e-9 ref (fs.getD 9 0)))
+  | "c19.holds.rbox" =>           -- c bounds r p f
+      let b := v3 fs 3
+      let ref := boxRef (v3 fs 0) ⟨b.x/2, b.y/2, b.z/2⟩ (v3 fs 7) - fs.getD 6 0
+      pure (boolStr (close 1e-9 ref (fs.getD 10 0)))
+  | "c19.holds.line" =>           -- a b r p f
+      let ref := segDist (v3 fs 0) (v3 fs 3) (v3 fs 7) - fs.getD 6 0
+      pure (boolStr (close 1e-9 ref (fs.getD 10 0)))
+  | "c19.holds.plane" =>          -- o n(unit) h p f
+      let ref := ((v3 fs 7).Sub (v3 fs 0)).Dot (v3 fs 3) + fs.getD 6 0
+      pure (boolStr (close 1e-9 ref (fs.getD 10 0)))
+  | "c19.holds.rcyl" =>           -- pos ra rb h p f : exact: distance to core cylinder (radius 2ra−rb, half height h) minus rb
+      let pos := v3 fs 0; let ra := fs.getD 3 0; let rb := fs.getD 4 0; let h := fs.getD 5 0; let p := v3 fs 6
+      let dx := Float.sqrt ((p.x-pos.x)^2 + (p.z-pos.z)^2) - (2*ra - rb)
+      let dy := (p.y-pos.y).abs - h
+      let ref := (if dx ≤ 0 && dy ≤ 0 then max dx dy else Float.sqrt ((max dx 0)^2 + (max dy 0)^2)) - rb
+      pure (boolStr (close 1e-9 ref (fs.getD 9 0)))
+  | "c19.holds.rcone_sign" =>     -- a b r1 r2 p f : sign agrees with the union-of-spheres reference (away from the surface)
+      let ref := coneRef (v3 fs 0) (v3 fs 3) (fs.getD 6 0) (fs.getD 7 0) (v3 fs 8)
+      let f := fs.getD 11 0
+      pure (boolStr (ref.abs < 1e-3 || (ref < 0) == (f < 0)))
+  | "c19.holds.rcone_outside_exact" => -- outside the cone the union-of-spheres minimum IS the distance
+      let ref := coneRef (v3 fs 0) (v3 fs 3) (fs.getD 6 0) (fs.getD 7 0) (v3 fs 8)
+      let f := fs.getD 11 0
+      pure (boolStr (ref < 1e-3 || (ref - f).abs ≤ 1e-3 * (max 1 ref.abs)))
+  | "c19.holds.setop" =>          -- kind(0 union,1 intersect,2 subtract) result k operand values…
+      let kind := fs.getD 0 0; let r := fs.getD 1 0
+      let vs := fs.drop 2
+      let want := if kind == 0 then vs.any (· < 0) else if kind == 1 then vs.all (· < 0)
+                  else (vs.getD 0 0 < 0 && 0 < vs.getD 1 0)
+      pure (boolStr ((r < 0) == want))
+  | _ => none
 
 end Driver.C19
 
